@@ -3,8 +3,10 @@ package props
 import (
 	"fmt"
 	"math/rand"
+	"runtime"
 	"sort"
 	"sync"
+	"sync/atomic"
 	"unsafe"
 
 	"github.com/couchbase/nitro/skiplist"
@@ -77,7 +79,81 @@ func intsEqual(a, b []int) bool {
 	return true
 }
 
+// c18LevelRace: many tiny builds whose segments receive their first items at the same instant
+// (spin gate), which is when the shared list level is raised. After Assemble the tallest node
+// is deleted; like in an incrementally built list it must then be unlinked at every level.
+func c18LevelRace(c *rt.C) {
+	r := c.Rng
+	nw := pick(r, 4, 8, 8)
+	per := pick(r, 1, 1, 2, 3)
+	trials := 3000
+	for t := 0; t < trials && !c.Failed(); t++ {
+		e := newSLEnv("go")
+		b := skiplist.NewBuilderWithConfig(e.cfg)
+		segs := make([]*skiplist.Segment, nw)
+		for i := range segs {
+			segs[i] = b.NewSegment()
+		}
+		var ready, gate int32
+		var wg sync.WaitGroup
+		for i := range segs {
+			wg.Add(1)
+			go func(i int) {
+				defer wg.Done()
+				atomic.AddInt32(&ready, 1)
+				for n := 0; atomic.LoadInt32(&gate) == 0; n++ {
+					if n > 2000 {
+						runtime.Gosched()
+					}
+				}
+				for j := 0; j < per; j++ {
+					segs[i].Add(e.intItem(i*per + j))
+				}
+			}(i)
+		}
+		for atomic.LoadInt32(&ready) < int32(nw) {
+			runtime.Gosched()
+		}
+		atomic.StoreInt32(&gate, 1)
+		wg.Wait()
+		s := b.Assemble(segs...)
+		c.Evals(1)
+		// tallest node
+		var tall *skiplist.Node
+		cnt := 0
+		for n, _ := s.HeadNode().VerifNext(0); n != nil && n != s.TailNode() && cnt <= nw*per; n, _ = n.VerifNext(0) {
+			cnt++
+			if tall == nil || n.Level() > tall.Level() {
+				tall = n
+			}
+		}
+		if cnt != nw*per {
+			c.Violate("assemble-content", fmt.Sprintf("assembled list holds %d nodes on level 0, %d were added (%d segments filled at the same instant)", cnt, nw*per, nw), nil)
+			break
+		}
+		lvl := s.VerifLevel()
+		c.Sig("level-race/nseg=%d/per=%d/tallest=%d/level=%d", nw, per, min(tall.Level(), 5), min(lvl, 5))
+		v := skiplist.IntFromItem(tall.Item())
+		buf := s.MakeBuf()
+		ok := s.Delete(tall.Item(), skiplist.CompareInt, buf, &s.Stats)
+		s.FreeBuf(buf)
+		if !ok {
+			c.Violate("assemble-later-delete", fmt.Sprintf("Delete(%d) on the assembled list failed although the item is present", v), nil)
+			break
+		}
+		if at := linkedAt(s, unsafe.Pointer(tall), 1000); at >= 0 {
+			c.Violate("assemble-level", fmt.Sprintf("after Delete(%d) returned, its node (height %d) is still linked at level %d: the assembled list's level is %d, so the unlink pass never looked there (an incrementally built list raises its level before linking a taller node); %d segments received their first items at the same instant",
+				v, tall.Level(), at, lvl, nw), map[string]interface{}{"segments": nw, "items_per_segment": per, "trial": t})
+			break
+		}
+	}
+}
+
 func runC18(c *rt.C) {
+	if c.Index%25 == 23 {
+		c18LevelRace(c)
+		return
+	}
 	if c.Index%2 == 0 {
 		c18Builder(c)
 	} else {
@@ -132,11 +208,15 @@ func c18Builder(c *rt.C) {
 		}
 	}
 	if concurrent {
+		// all fillers are released together: the first Adds of every segment (where the shared
+		// list level is raised) then really overlap
 		var wg sync.WaitGroup
+		gate := make(chan struct{})
 		for i := range segs {
 			wg.Add(1)
-			go func(i int) { defer wg.Done(); fill(i) }(i)
+			go func(i int) { defer wg.Done(); <-gate; fill(i) }(i)
 		}
+		close(gate)
 		wg.Wait()
 	} else {
 		for i := range segs {
@@ -378,7 +458,7 @@ func init() {
 		ID: "C18", Level: "exploration",
 		Technique: "runtime monitoring: assembled list compared with the concatenation of its segments (scan, lookups, structure walk, statistics) and with an ordered-set model under later operations; merge iterator compared with the sorted multiset union after every call",
 		Rule: "even cases: 0-12 segments of 0-199 ascending items (empty segments leading/trailing/middle), filled sequentially or one goroutine per segment, Go-managed and both guard allocators; checks scan, Lookup of every value and gap, full-level structure walk, statistics, then 300 Insert/Delete against a set model and a final scan/walk. " +
-			"odd cases: 0-8 lists (disjoint / overlapping / identical / with empties) merged; 200 random SeekFirst/Seek(x)/Next calls with repositioning before, during and after scans. evaluations = builds + operations checked; distinct = configuration/phase tuples",
+			"every 25th case: 3000 tiny builds whose 4-8 segments receive their first items at the same instant (spin gate; this is when the shared list level is raised), then the tallest node is deleted and must be unlinked at every level. odd cases: 0-8 lists (disjoint / overlapping / identical / with empties) merged; 200 random SeekFirst/Seek(x)/Next calls with repositioning before, during and after scans. evaluations = builds + operations checked; distinct = configuration/phase tuples",
 		Assumptions: []string{"items added to a segment are ascending and segments are passed to Assemble in ascending order (API contract)", "MergeIterator.Next is not called once it is invalid"},
 		Cases: func(t string) int {
 			if t == "thorough" {
